@@ -57,5 +57,17 @@ Seqs ==
    Mk("C18/seq/loop", "top", <<For3(Def1("i", NatLit(0)), CmpE("<", Var("i"), NatLit(3)), Inc("i"), <<Def(<<"o", "e", "c">>, <<App(<<Stage("pa", <<Bin("+", StrL("x"), Itoa(Var("i")))>>)>>)>>), PrintS(<<Var("o"), Var("c")>>)>>)>>),
    Mk("C18/seq/capture-multiline", "top", <<Def(<<"o", "e", "c">>, <<App(<<Stage("pa", <<StrL("l1")>>), Stage("pb", <<StrL("l2")>>)>>)>>), PrintS(<<StrL("["), Var("o"), StrL("]"), LenE(Var("o"))>>)>>),
    Mk("C18/seq/cond-on-code", "func", <<Def(<<"o", "e", "c">>, <<App(<<Stage("pa", <<StrL("x2")>>)>>)>>), IfElse(CmpE("==", Var("c"), NatLit(2)), <<Print1(StrL("two"))>>, <<PrintS(<<StrL("other"), Var("c")>>)>>)>>)}
-ASSUME ndJsonSerialize("fam.ndjson", SetToSeq(One \cup Two \cup {c \in Many : TRUE} \cup Pipes \cup Seqs))
+\* run-time histories: every sequence of three command calls out of five kinds (captured / statement, succeeding / failing, a captured pipe whose first stage fails);
+\* what a call leaves behind (status registers, temporaries) must not reach the next one
+HKinds == <<"capok", "capfail", "stmtok", "stmtfail", "pipecap">>
+HCall(k, i) == LET sfx == ToString(i) IN
+  CASE k = "capok"    -> <<Asg(<<"o", "e", "c">>, <<App(<<Stage("pa", <<StrL("ok" \o sfx)>>)>>)>>), PrintS(<<StrL("["), Var("o"), StrL("]"), Var("c")>>)>>
+    [] k = "capfail"  -> <<Asg(<<"o", "e", "c">>, <<App(<<Stage("pa", <<StrL("x3"), StrL("bad" \o sfx)>>)>>)>>), PrintS(<<StrL("["), Var("o"), StrL("]"), Var("c")>>)>>
+    [] k = "stmtok"   -> <<ExprS(App(<<Stage("pb", <<StrL("s" \o sfx)>>)>>)), PrintS(<<StrL("after"), Var("c")>>)>>
+    [] k = "stmtfail" -> <<ExprS(App(<<Stage("pb", <<StrL("x1"), StrL("s" \o sfx)>>)>>)), PrintS(<<StrL("after"), Var("c")>>)>>
+    [] k = "pipecap"  -> <<Asg(<<"o", "e", "c">>, <<App(<<Stage("pa", <<StrL("x5"), StrL("first")>>), Stage("pc", <<StrL("last" \o sfx)>>)>>)>>), PrintS(<<StrL("["), Var("o"), StrL("]"), Var("c")>>)>>
+HPre == <<VarDef(<<"o", "e">>, "string", <<>>), VarDef(<<"c">>, "int", <<>>)>>
+Hist3 == {Mk("C18/hist/" \o HKinds[a] \o "-" \o HKinds[b] \o "-" \o HKinds[d] \o "/" \o ctx, ctx, HPre \o HCall(HKinds[a], 1) \o HCall(HKinds[b], 2) \o HCall(HKinds[d], 3) \o <<Print1(StrL("end"))>>)
+          : a \in 1..5, b \in 1..5, d \in 1..5, ctx \in (IF Quick THEN {"func"} ELSE {"top", "func"})}
+ASSUME ndJsonSerialize("fam.ndjson", SetToSeq(One \cup Two \cup {c \in Many : TRUE} \cup Pipes \cup Seqs \cup Hist3))
 =============================================================================
